@@ -191,6 +191,17 @@ pub fn builtins_record(args: &[String]) {
             let (actual, _) = apply_case("bin", op, &vals, false);
             out.line(&json!({"kind": "bin", "op": op, "args": vals.iter().map(value_to_json).collect::<Vec<_>>(), "actual": actual}));
         }
+        // near ties: numbers that differ only beyond the 16 digits a binary double carries, under every ordering and equality operator
+        for (a, b) in [("0.1", "0.1000000000000000000000000001"), ("9999999999999999999999999999", "9999999999999999999999999998"), ("1", "1.00000000000000000001"),
+                       ("9007199254740993", "9007199254740992"), ("79228162514264337593543950335", "79228162514264337593543950334"), ("0.3", "0.30000000000000000001"),
+                       ("-0.1", "-0.1000000000000000000000000001"), ("1234567890123456.7890123456", "1234567890123456.7890123457")] {
+            for op in ["<", "<=", ">", ">=", "==", "!="] {
+                for vals in [vec![d(a), d(b)], vec![d(b), d(a)]] {
+                    let (actual, _) = apply_case("bin", op, &vals, false);
+                    out.line(&json!({"kind": "bin", "op": op, "args": vals.iter().map(value_to_json).collect::<Vec<_>>(), "actual": actual}));
+                }
+            }
+        }
     }
     for _ in 0..n {
         let (kind, op, vals): (&str, &str, Vec<Value>) = match if numeric_only { 0 } else { rng.gen_range(0..20) } {
@@ -198,7 +209,15 @@ pub fn builtins_record(args: &[String]) {
                 let op = if numeric_only { NUMERIC[rng.gen_range(0..NUMERIC.len())] } else { INFIX[rng.gen_range(0..INFIX.len())] };
                 let numeric = !matches!(op, "==" | "!=" | "&&" | "||" | "in" | "beginWith" | "endWith" | "=");
                 let a = if numeric_only || numeric && rng.gen_bool(0.85) { Value::Number(random_decimal(&mut rng)) } else { random_value(&mut rng, 2) };
-                let b = if rng.gen_bool(0.15) { a.clone() } else if numeric_only || numeric && rng.gen_bool(0.85) { Value::Number(random_decimal(&mut rng)) } else { random_value(&mut rng, 2) };
+                // one pair in ten is a near tie: the second operand is the first plus or minus one unit in its last place
+                let tie = match &a {
+                    Value::Number(x) if rng.gen_bool(0.1) => {
+                        let ulp = rust_decimal::Decimal::new(if rng.gen_bool(0.5) { 1 } else { -1 }, x.scale());
+                        x.checked_add(ulp).map(Value::Number)
+                    }
+                    _ => None,
+                };
+                let b = if let Some(t) = tie { t } else if rng.gen_bool(0.15) { a.clone() } else if numeric_only || numeric && rng.gen_bool(0.85) { Value::Number(random_decimal(&mut rng)) } else { random_value(&mut rng, 2) };
                 // bit operators want integers most of the time
                 let intop = matches!(op, "&" | "|" | "^" | "<<" | ">>" | "&=" | "|=" | "^=" | "<<=" | ">>=");
                 let a = if intop && rng.gen_bool(0.7) { Value::Number(rust_decimal::Decimal::from(rng.gen::<i64>() >> rng.gen_range(0..63))) } else { a };
